@@ -56,6 +56,9 @@ def plan(prop):
     if prop == 'C16':
         for n in ((2, 3) if Q else (2, 3, 4)):
             obs.append((core, lambda ctx, n=n: co.ob_time_aware_provider(ctx, n)))
+    if prop == 'C18':
+        import ieee_obligations as io
+        obs.append(('rosomaxa', lambda ctx: io.ob_max_generation(ctx)))
     if prop == 'C09':
         import ieee_obligations as io
         for n in ((1, 2) if Q else (1, 2, 3)):
